@@ -22,7 +22,17 @@ What S returns and what it is made of (per model):
              epoch whose candidates are those of epoch 0
 Flavour "trackpos": the states are the position OBJECTS of track 0 (label l = the position of epoch l, coordinates
 (l, -l-1, 0)); other epochs of the decoded track are its candidates. x, y, z may be observation names (the
-coordinates of whatever object the position is when the call is made)."""
+coordinates of whatever object the position is when the call is made).
+
+User functions that READ THE TRACK they are handed (per model, key "dep": {"S" | "Q" | "P": {"src": name, "off": d}}):
+the function reads the digit v of feature `src` (x, y, z, idx, hmm_inference, hmm_cost, a user feature; 0 when the track
+has no such feature) at epoch (k + off) mod N and answers
+    S(track, k) = row k of table number v mod (1 + len(SV)) of [S] + SV      Q = QT[k][s1][(s2 + v) mod L]
+    P = PT[k][s][(code(y) + v) mod YD]
+The model of a call is the one these functions define on the track AS IT IS WHEN THE CALL IS MADE (the harness reads what
+they see there before the call: `dep` of the result); during the backward step the values they would read change.
+User functions that RAISE (key "exc": {"S": [k, ...], "P": [[k, label], ...], "Q": [[k, label, label], ...]}): the call
+with those arguments raises UserFunctionError; a call of estimate that reaches one is outside the statement."""
 import math, copy, itertools, collections
 
 SFLAVS = ["int", "str", "tuple", "list", "obj", "objnh", "ident", "coords", "trackpos"]
@@ -127,6 +137,16 @@ def conts_of(m, N):
 
 
 DEP_OFFS = [1, 1, 1, 2, -1, 0]
+
+
+class UserFunctionError(Exception):
+    """what a user function of the session raises where the model's `exc` says so"""
+
+
+def exc_of(m, which):
+    """the arguments at which the user function `which` of this model RAISES: S: epochs k; P: (k, label);
+    Q: (k, label, label)"""
+    return [tuple(a) if isinstance(a, list) else a for a in (m.get("exc") or {}).get(which, [])]
 
 
 def dep_of(m, which):
@@ -343,6 +363,16 @@ def valid(case):
             for tab in m.get("SV", []):
                 if len(tab) != N or any(l >= L or l < 0 for row in tab for l in row):
                     return False
+            for w, args in (m.get("exc") or {}).items():
+                ar = {"S": 0, "P": 2, "Q": 3}.get(w)
+                if ar is None:
+                    return False
+                for a in args:
+                    if ar == 0:
+                        if not (isinstance(a, int) and 0 <= a < N):
+                            return False
+                    elif not (isinstance(a, list) and len(a) == ar and 0 <= a[0] < N and all(0 <= l < L for l in a[1:])):
+                        return False
             for w, d in (m.get("dep") or {}).items():
                 if w not in ("S", "Q", "P") or not isinstance(d["off"], int) or d["src"] in ("t", "timestamp") \
                         or not isinstance(d["src"], str) or any(ch in d["src"] for ch in " ,;:/|@!^#"):
@@ -454,6 +484,7 @@ class Runner:
             PT, QT = m["P"], m["Q"]
             tabs = s_tables(m)
             dS, dQ, dP = dep_of(m, "S"), dep_of(m, "Q"), dep_of(m, "P")
+            xS, xQ, xP = set(exc_of(m, "S")), set(exc_of(m, "Q")), set(exc_of(m, "P"))
             conts, share = conts_of(m, N), m.get("share", "fresh")
             cache = {}
 
@@ -464,6 +495,8 @@ class Runner:
             def S(track, k):
                 if track is not cur["track"]:
                     raise LookupError("S called with another track")
+                if k in xS:
+                    raise UserFunctionError("S(track, %d)" % k)
                 v = read_digit(fl, track, dS, k, N, R) % len(tabs)     # a candidate function that looks at the track
                 SL = tabs[v]
                 if share == "fresh" or conts[k] in UNSIZED:
@@ -482,6 +515,8 @@ class Runner:
                 a, b = fl.state_label(s1), fl.state_label(s2)
                 if a is None or b is None or not (0 <= k < N - 1):
                     raise LookupError("Q called with %r, %r at epoch %r" % (s1, s2, k))
+                if (k, a, b) in xQ:
+                    raise UserFunctionError("Q(%d, %d, %d, track)" % (a, b, k))
                 return QT[k][a][(b + read_digit(fl, track, dQ, k, N, R)) % L]
 
             def P(s, y, k, track):
@@ -490,6 +525,8 @@ class Runner:
                 a = fl.state_label(s)
                 if a is None or not (0 <= k < N):
                     raise LookupError("P called with %r at epoch %r" % (s, k))
+                if (k, a) in xP:
+                    raise UserFunctionError("P(%d, y, %d, track)" % (a, k))
                 return PT[k][a][(fl.code(y, R, YD, cur.get("mode", 0) in (1, 2, 3, 4)) + read_digit(fl, track, dP, k, N, R)) % YD]
             return S, Q, P
         funs = [functions(m) for m in case["models"]]
@@ -609,11 +646,15 @@ def request(case, fbits, tok_list):
         S = stab(m["S"])
         Pf = tok_list(fbits(v) for r in m["P"] for c in r for v in c)
         Qf = tok_list(fbits(v) for r in m["Q"] for c in r for v in c)
-        if m.get("dep") or m.get("SV"):       # user functions that read the track: <depS>!<depQ>!<depP>!<further S tables>
+        if m.get("dep") or m.get("SV") or m.get("exc"):
+            # user functions that read the track / that raise: <depS>!<depQ>!<depP>!<exc>!<further S tables>
             ds = []
             for w in ("S", "Q", "P"):
                 d = dep_of(m, w)
                 ds.append("-" if d is None else "%s^%d" % (d[0], d[1] % N))
+            ex = ["S,%d" % k for k in exc_of(m, "S")] + ["Q,%d,%d,%d" % a for a in exc_of(m, "Q")] + \
+                 ["P,%d,%d" % a for a in exc_of(m, "P")]
+            ds.append(";".join(ex) if ex else "-")
             ms.append("%s/%s/%s/%s" % (S, Pf, Qf, "!".join(ds + [stab(t) for t in m.get("SV", [])])))
         else:
             ms.append("%s/%s/%s" % (S, Pf, Qf))
@@ -763,6 +804,10 @@ def in_statement(case, ctx, res):
         return False                                  # an epoch without candidates: outside the quantifier
     if any(c in UNSIZED for c in conts_of(case["models"][ctx["S"]], N)):
         return False                                  # S did not return a collection of candidates
+    if exc_of(case["models"][ctx["S"]], "S") \
+            or any(lab in SL[k] for (k, lab) in exc_of(case["models"][ctx["P"]], "P")) \
+            or any(k + 1 < N and a in SL[k] and b in SL[k + 1] for (k, a, b) in exc_of(case["models"][ctx["Q"]], "Q")):
+        return False                                  # a user function raises for a candidate: S, Q, P do not define a model
     if any(c is None for row in res["pre"] for c in row):
         return False                                  # an observation feature the track does not have
     if len(st["obs"]) < fields_needed(mode):
@@ -1005,6 +1050,14 @@ def gen_model(rng, N, L, YD, kind, maxseq, sflav="int"):
         m["dep"] = dep
     if SV:
         m["SV"] = SV
+    if rng.random() < 0.05:      # a user function that raises for some arguments (outside the statement when it is reached)
+        w = rng.choice(["S", "P", "P", "Q", "Q"])
+        if w == "S":
+            m["exc"] = {"S": [rng.randrange(N)]}
+        elif w == "P":
+            m["exc"] = {"P": [[rng.randrange(N), rng.randrange(L)] for _ in range(rng.choice([1, 1, 2]))]}
+        elif N >= 2:
+            m["exc"] = {"Q": [[rng.randrange(N - 1), rng.randrange(L), rng.randrange(L)] for _ in range(rng.choice([1, 1, 2, 3]))]}
     # what S returns: the container type per epoch, and whether containers / state objects are shared between calls
     r = rng.random()
     if r < 0.60:
@@ -1026,7 +1079,7 @@ def log_twin(m):
     f = lambda v: math.log(v + 1e-300)
     t = {"S": [list(r) for r in m["S"]], "P": [[[f(v) for v in c] for c in r] for r in m["P"]],
          "Q": [[[f(v) for v in c] for c in r] for r in m["Q"]], "kind": "log"}
-    for k in ("cont", "share", "dep", "SV"):
+    for k in ("cont", "share", "dep", "SV", "exc"):
         if k in m:
             t[k] = copy.deepcopy(m[k])
     return t
@@ -1192,6 +1245,7 @@ def describe(case):
             "S returns": "+".join(kinds) if len(kinds) <= 2 else "%d kinds" % len(kinds),
             "share": "+".join(sorted(set(m.get("share", "fresh") for m in case["models"]))),
             "xyz obs": any(n in ("x", "y", "z") for s in case["steps"] if s["op"] == "est" for n in s["obs"]),
+            "raises": "".join(w for w in ("S", "Q", "P") if any(exc_of(m, w) for m in case["models"])) or "-",
             "reads track": "".join(w for w in ("S", "Q", "P") if any(dep_of(m, w) for m in case["models"])) or "-"}
 
 
@@ -1230,6 +1284,12 @@ def shrink(case):
             m["S"] = m["S"][:-1]; m["P"] = m["P"][:-1]; m["Q"] = m["Q"][:-1]
             if "SV" in m:
                 m["SV"] = [t[:-1] for t in m["SV"]]
+            if "exc" in m:      # keep what still designates an epoch / a transition of the shorter track
+                ex = {"S": [k for k in exc_of(m, "S") if k < N - 1], "P": [list(a) for a in exc_of(m, "P") if a[0] < N - 1],
+                      "Q": [list(a) for a in exc_of(m, "Q") if a[0] < N - 2]}
+                m["exc"] = {w: v for w, v in ex.items() if v}
+                if not m["exc"]:
+                    del m["exc"]
             if isinstance(m.get("cont"), list):
                 m["cont"] = m["cont"][:-1]
         c["feats"] = [[n, v[:-1]] for n, v in c["feats"]]
@@ -1245,6 +1305,12 @@ def shrink(case):
                     c = copy.deepcopy(case)
                     c["models"][mi]["S"][k] = row[:j] + row[j + 1:]
                     yield c
+    # user functions that do not raise
+    for mi, m in enumerate(case["models"]):
+        if m.get("exc"):
+            c = copy.deepcopy(case)
+            del c["models"][mi]["exc"]
+            yield c
     # user functions that do not look at the track
     for mi, m in enumerate(case["models"]):
         if m.get("dep") or m.get("SV"):
